@@ -110,6 +110,8 @@ def record(rc, faults=None, order="fifo", rng=None, script=None, silence_from=No
         d.update(residue_counts(rig))
         return d
     rig.residue = residue
+    if rc.get("reann"):
+        rig.prior_exchange()
     if rc.get("pre"):
         rig.pre_exchange()
     hang = None
